@@ -4,15 +4,16 @@ CONSTANTS
   Tag <- TagAC
   RevTag <- RevAC
   Delta = 10
-  DaySteps <- Days6
+  DaySteps <- Days4
   AgeCap = 91
   MaxRefresh = 3
   MaxRestarts = 1
   MaxWriteFaults = 2
   MaxReadFaults = 1
-  ReadFaultKinds <- RF_corrupt
+  ReadFaultKinds <- RF_tomb
   AllowSoleRecordLoss = FALSE
   AllowIntraSetCollision = FALSE
+  RelevantSignersOnly = TRUE
 SPECIFICATION Spec
 VIEW View
 INVARIANTS TypeOK TrustOnlyByRFC RevokedNeverAgain RevokedNeverAtFetch
